@@ -476,7 +476,7 @@ def tree_from_json(t):
 def plan(rnd, tier):
     thorough = tier == "thorough"
     writes, reads = [], []
-    n_w = 900 if thorough else 240
+    n_w = 900 if thorough else 180
     for i in range(n_w):
         k = rnd.random()
         if k < 0.08:
@@ -488,7 +488,7 @@ def plan(rnd, tier):
         fmt = ("zip", "tar")[i % 2]
         route = ROUTES[(i // 2) % 3]
         writes.append(dict(fmt=fmt, route=route, comp=rnd.randrange(4), tree=tree))
-    n_r = 24000 if thorough else 4000
+    n_r = 24000 if thorough else 3000
     for i in range(n_r):
         fmt = ("zip", "tar")[i % 2]
         malformed = rnd.random() < 0.4
